@@ -4,8 +4,9 @@
   the theorems below are re-checked against what the source says now.
 -/
 import YkModel.AppFsm
+import YkProofs.Core2LifeEx
 namespace Yk.C10
-open Yk
+open Yk Yk.Res Yk.Core
 
 /-- tie: the states and events of the source are exactly the ones modelled, every name in the table resolves -/
 theorem states_tie :
@@ -89,5 +90,86 @@ theorem callbacks_tie :
     callbackCalls "leave_state" = [("clearStateTimer", "")] := by decide
 
 example : fire .completing .run = some .running ∧ fire .running .run = some .running ∧ fire .completed .run = none := by decide
+
+/-! ### the state follows the ledger (stepped Core model, YkModel/CoreOps*.lean, compared with the real core line by line)
+
+`CoreInv s` = `CoreWF ∧ Books ∧ Linked ∧ LifeInv`, `RunLifeOK`: every step meets `Op.ok2` and `Op.okLife`
+(YkProofs/Core2LifeRun.lean). -/
+
+/-- An ask that arrives at a Completing application moves it back to Running (and a New one to Accepted). -/
+theorem ask_on_completing_runs (s : Core) (app key : String) (res : Res) (ph : Bool) (tg reqNode : String) (a : CApp)
+    (hfind : s.findApp app = some a) (hst : a.state = "Completing")
+    (hres : strictlyGreaterThanZero (some res) = true) (hnew : a.items.any (fun i => i.key == key && i.inReq) = false) :
+    (s.ask app key res ph tg reqNode).2 = true ∧
+    ∃ a', (s.ask app key res ph tg reqNode).1.findApp app = some a' ∧ a'.state = "Running" :=
+  ask_completing_runs s app key res ph tg reqNode a hfind hst hres hnew
+
+/-- An application with neither asks nor allocations does not stay Accepted / Running: when its last real allocation,
+    its last placeholder (not a confirmed replacement: the real allocation follows) or its last ask goes it becomes
+    Completing. -/
+theorem idle_becomes_completing (tt : TermType) (key : String) (i x : CItem) (a : CApp)
+    (hst : a.state = "Accepted" ∨ a.state = "Running") :
+    (i.ph = false → isZero (some a.pending) = true → isZero (some (relAppT tt key i a).allocated) = true →
+      (relAppT tt key i a).state = "Completing") ∧
+    (i.ph = true → isZero (some (relAppT tt key i a).allocatedPh) = true → isZero (some a.pending) = true →
+      isZero (some a.allocated) = true → (tt ≠ .replaced ∨ i.release = none) → (relAppT tt key i a).state = "Completing") ∧
+    (isZero (some (askAppT key x a).pending) = true → isZero (some a.allocated) = true →
+      (askAppT key x a).items.any (fun y => y.bound && y.ph) = false → (askAppT key x a).state = "Completing") :=
+  ⟨fun h1 h2 h3 => (relAppT_idle_real tt key i a h1 h2 h3 hst).1,
+   fun h1 h2 h3 h4 h5 => (relAppT_idle_ph tt key i a h1 h2 h3 h4 h5 hst).1,
+   fun h1 h2 h3 => (askAppT_idle key x a h1 h2 h3 hst).1⟩
+
+/-- Terminated applications leave the partition, and a Completed application holds no real allocation — along every
+    history of the stepped model (also in the step that confirms a placeholder swap: fix 3b9e769). -/
+theorem terminated_leave_and_completed_hold_nothing (s : Core) (ops : List Op) (h : CoreInv s) (hok : RunLifeOK s ops) :
+    (∀ a ∈ (run s ops).apps, a.live = true → terminated a.state = false) ∧
+    (∀ a ∈ (run s ops).apps, a.state = "Completed" → ∀ i ∈ a.items, i.bound = true → i.ph = true) ∧
+    (∀ a ∈ (run s ops).apps, a.state = "Completed" → ∀ i ∈ a.items, i.bound = true → i.ph = false) :=
+  let r := (reachable_life s ops h hok).life
+  ⟨r.termGone, r.completedNoReal, fun a ha hst => r.noPhOrphan a ha (Or.inr (by rw [hst]; decide))⟩
+
+/-- A Completing application holds no real allocation (a real allocation moves it back to Running). -/
+theorem completing_holds_no_real_allocation (s : Core) (ops : List Op) (h : CoreInv s) (hok : RunLifeOK s ops) :
+    ∀ a ∈ (run s ops).apps, a.live = true → a.state = "Completing" → ∀ i ∈ a.items, i.bound = true → i.ph = true :=
+  (reachable_life s ops h hok).life.completingNoReal
+
+/-- `_partial`: an application with outstanding asks is neither Completing nor Completed — along every history in which
+    no node removal touches an application with a placeholder swap in flight (`RunNoRollback`: `NoRollback s id order` at
+    every `nodeRemove`). -/
+theorem outstanding_ask_not_completed_partial (s : Core) (ops : List Op) (h : CoreInv s) (hp : NoPendInv s)
+    (hok : RunLifeOK s ops) (hnr : RunNoRollback s ops) :
+    (∀ a ∈ (run s ops).apps, a.live = true → a.state = "Completing" → ∀ i ∈ a.items, i.outstanding = false) ∧
+    (∀ a ∈ (run s ops).apps, a.state = "Completed" → ∀ i ∈ a.items, i.outstanding = false) :=
+  let r := reachable_nopend s ops h hp hok hnr; ⟨r.completingNoPending, r.completedNoAsk⟩
+
+/-- the full statement, without the restriction on node removals: NOT true of the code -/
+def outstanding_ask_not_completed_full : Prop :=
+  ∀ (s : Core) (ops : List Op), CoreInv s → NoPendInv s → RunLifeOK s ops → NoPendInv (run s ops)
+
+/-- … refuted (KNOWN_FINDINGS C10.completing-with-pending-ask+swap-rolled-back-by-node-removal): a node is removed while a
+    swap of the application is in flight on it; its real allocation on the node goes first (the application becomes
+    Completing: the real ask of the swap counts as allocated), then the swap is rolled back (the ask is outstanding
+    again, the application stays Completing); the state timer asks for the remaining placeholder back and its
+    confirmation completes the application with the ask outstanding (`Example.exOpsC10b`). -/
+theorem outstanding_ask_not_completed_full_refuted : ¬ outstanding_ask_not_completed_full :=
+  fun h => Example.exC10b_not_noPend (h _ _ Example.coreInv_ex0 Example.noPendInv_ex0 Example.exOpsC10b_life)
+
+/-- The state timer completes a Completing application without placeholders whatever its pending total: the step that
+    turns the defect above into "Completed with an outstanding ask". -/
+theorem state_timer_completes_regardless_of_asks (s : Core) (app : String) (a : CApp) (hw : CoreWF s)
+    (hfind : s.findApp app = some a) (hst : a.state = "Completing") (hph : isZero (some a.allocatedPh) = true) :
+    (s.stateTimeout app).findApp app = none ∧
+    ∃ a' ∈ (s.stateTimeout app).apps, a'.id = app ∧ a'.live = false ∧ a'.state = "Completed" ∧ a'.pending = a.pending :=
+  let ⟨h1, a', h2, h3, h4, h5, h6, _⟩ := stateTimeout_completes s app a hw hfind hst hph; ⟨h1, a', h2, h3, h4, h5, h6⟩
+
+/-- non-vacuity: the example history `exOps` (placeholder bound, swapped, released, node removed) meets every side
+    condition including `RunNoRollback`; the witness history meets all but that one: right before its node removal the
+    application it touches has a swap in flight -/
+example : CoreInv Example.ex0 ∧ NoPendInv Example.ex0 ∧ RunLifeOK Example.ex0 Example.exOps ∧
+    RunNoRollback Example.ex0 Example.exOps ∧ RunLifeOK Example.ex0 Example.exOpsC10b ∧
+    (∃ a, (run Example.ex0 (Example.exOpsC10b.take 11)).findApp "app" = some a ∧ a.state = "Running" ∧ a.pending = [] ∧
+      ∃ i ∈ a.items, i.release ≠ none) :=
+  ⟨Example.coreInv_ex0, Example.noPendInv_ex0, Example.exOps_life, Example.exOps_noRollback, Example.exOpsC10b_life,
+   Example.exC10b_before⟩
 
 end Yk.C10
